@@ -78,6 +78,15 @@ Definition run (inp : list Z) : list Z :=
       | Some (mt, o, a, f, s1, s2) =>
           eresult erspec (rbind s1 (fun x => rbind s2 (fun y => method_call mt o x (PSpectrum y) a f)))
       | None => emalformed end
+    else if op =? 9 then
+      (* Spectrum.sample with every argument form: method kind, fill form (0 number, 1 pair, 2 unusable shape) *)
+      match pall (mt <- pmeth ;; u <- pwunit ;;
+                  fa <- (t <- pZ ;; if t =? 0 then (c <- pQ ;; pret (FOk (FScalar c)))
+                                    else if t =? 1 then (a <- pQ ;; b <- pQ ;; pret (FOk (FPair a b)))
+                                    else if t =? 2 then pret FBadShape else pfail) ;;
+                  s <- pspec ;; l <- plist pQ ;; pret (mt, u, fa, s, l)) rest with
+      | Some (mt, u, fa, s, l) => eresult (elist exval) (rbind s (fun a => sample_call mt a l fa u))
+      | None => emalformed end
     else emalformed
   | _ => emalformed
   end.
